@@ -76,7 +76,7 @@ class C08(Prop):
 
 
 class C19(Prop):
-    """Theorems (Props/C19.lean): the printing loop stated outright (exact/decimal number, space iff the unit has a numerator, plural only when the value is not one, one item per result, errors do not stop the loop) + correspondence between the real `any` binary and the model applied to the library's results. `C19_power_text`: the superscript digits the model writes for a unit power read back to exactly that power."""
+    """Theorems (Props/C19.lean): the printing loop stated outright (exact/decimal number, space iff the unit has a numerator, plural only when the value is not one, one item per result, errors do not stop the loop) + correspondence between the real `any` binary and the model applied to the library's results. `C19_power_text`: the superscript digits the model writes for a unit power read back to exactly that power. Diagnostics are compared by kind and by line:column against the library's error range; a query handed over as several arguments prints what it prints as one."""
     id = "C19"
     needs_knobs = ("cli",)
     module = "Anything.Props.C19"
